@@ -14,7 +14,7 @@ from .. import build as B
 PROPERTY = "C17"
 LEVEL = "fault_enumeration"
 VARIANTS = ["asan"]
-RULE = ("archives: file sets of <=2 (quick) / <=3 (thorough) entries over 4 names x 6 sizes x 3 property sets (with and without trailer); faults per "
+RULE = ("archives: file sets of <=2 (quick) / <=3 (thorough) entries over 4 names x 6 sizes x 3 property sets (with and without trailer), plus header strings of 254..700 bytes; faults per "
         "archive: every truncation length, every header/property/table byte x {00,01,7F,FF}, every size field x 6 values, missing / directory path; a case = (archive, fault); non-trivial = every faulted case and every archive with >=1 entry; distinct by case")
 ASSUMPTIONS = [
     "content bytes are arbitrary binary (all 256 byte values occur); entry names use backslash separators as in real PBOs",
@@ -29,14 +29,31 @@ SCR = os.path.join(B.BUILD, "scratch", "c17")
 NAMES = ["a.sqf", "d\\b.sqf", "config.cpp", "n" * 200 + ".sqf"]
 SIZES = [0, 1, 255, 256, 257, 5000]
 PROPS = {"prefix": [("prefix", "pre\\fix")], "prefix+2": [("prefix", "x"), ("version", "1.0"), ("author", "me")], "none": []}
+# header strings around and beyond the reader's 256-byte chunk size (names, property keys, property values, the prefix)
+LONG_LENS = [254, 255, 256, 257, 300, 511, 512, 513, 700]
+for _l in LONG_LENS:
+    PROPS["longvalue-%d" % _l] = [("prefix", "p"), ("k", "v" * _l)]
+    PROPS["longkey-%d" % _l] = [("prefix", "p"), ("k" * _l, "v")]
+    PROPS["longprefix-%d" % _l] = [("prefix", "d\\" + "p" * (_l - 2))]
 
 
 def content(n, seed):
     return bytes(((i * 7 + seed * 13) % 256) for i in range(n))
 
 
+def gen_long():
+    for l in LONG_LENS:
+        for tr in (True, False):
+            for pk in ("prefix", "none"):
+                # an ordinary entry before and after the long-named one
+                yield [[pk, ["a.sqf", "x" * (l - 4) + ".sqf", "z.sqf"], [1, 257, 3]], ["intact", tr]]
+                yield [[pk, ["d\\" * ((l - 5) // 2) + "y" * ((l - 5) % 2) + "e.sqf"], [256]], ["intact", tr]]
+            for kind in ("longvalue", "longkey", "longprefix"):
+                yield [["%s-%d" % (kind, l), ["a.sqf", "b.sqf"], [5, 0]], ["intact", tr]]
+
+
 def archives(maxfiles, sizes):
-    for pk in PROPS:
+    for pk in ("prefix", "prefix+2", "none"):
         for nf in range(0, maxfiles + 1):
             for names in itertools.combinations(NAMES, nf):
                 for szs in itertools.product(sizes, repeat=nf):
@@ -173,5 +190,7 @@ def check(ws, case):
 def spaces(tier):
     q = tier == "quick"
     return [Space("intact", gen_intact(2 if q else 3, SIZES if not q else [0, 1, 256, 5000]), check, variant="asan", describe="well-formed archives read back"),
+            Space("long-header-strings", gen_long, check, variant="asan",
+                  describe="entry names, property keys / values and prefixes of 254..700 bytes (the reader scans strings in 256-byte chunks)"),
             Space("faults", gen_faults(1 if q else 2, [1, 257] if q else [0, 1, 257], 1), check, variant="asan",
                   describe="every truncation point, header-region byte x4, size field x6, absent/directory/unreadable")]
